@@ -689,7 +689,7 @@ func ruleVariantDescends(c *Ctx, r *Report) {
 			cmp = bo
 		}
 	})
-	for _, b := range fn.Blocks {
+	for _, b := range blocksOf(fn) {
 		if bo, ok := ifCond(b).(*ssa.BinOp); ok {
 			if (bo.Op == token.LSS && isArityCall(bo.Y)) || (bo.Op == token.GTR && isArityCall(bo.X)) {
 				argLoop = b
@@ -712,7 +712,7 @@ func ruleVariantDescends(c *Ctx, r *Report) {
 		return false
 	}
 	var starts []*ssa.BasicBlock
-	for _, b := range fn.Blocks {
+	for _, b := range blocksOf(fn) {
 		if !equalAt(b) {
 			continue
 		}
@@ -729,7 +729,7 @@ func ruleVariantDescends(c *Ctx, r *Report) {
 	}
 	// outer loop header: a block with a back edge that dominates cmpBlock
 	var H *ssa.BasicBlock
-	for _, b := range fn.Blocks {
+	for _, b := range blocksOf(fn) {
 		back := false
 		for _, p := range b.Preds {
 			if b.Dominates(p) {
